@@ -20,7 +20,7 @@ def plans(tier):
 def real_plans(tier):
     s = vlib.seed()
     q = tier == "quick"
-    return [dict(real=True, gens="arbitrary,spiky", variants="base", n=600 if q else 20000, seed=s + 50, where="interior,origin,far,nl"),
+    return [dict(real=True, gens="arbitrary,spiky", variants="base", n=600 if q else 20000, seed=s + 50, where="interior,origin,far,nl,centre"),
             dict(real=True, sets="WebMercatorQuad,EuropeanETRS89_LAEAQuad,NZTM2000Quad,WorldMercatorWGS84Quad", gens="star", variants="base", n=60 if q else 600, seed=s + 51, where="farband"),
             dict(real=True, sets="WebMercatorQuad,NZTM2000Quad,UPSArcticWGS84Quad,UPSAntarcticWGS84Quad,WorldMercatorWGS84Quad", gens="star,arbitrary", variants="base", n=60 if q else 600, seed=s + 52, where="interior", deep=True)]
 
